@@ -9,6 +9,8 @@ package mcp
 import (
 	"encoding/json"
 	"fmt"
+	"math"
+	"strconv"
 
 	"trpc.group/trpc-go/trpc-mcp-go/internal/errors"
 )
@@ -144,6 +146,16 @@ func NewJSONRPCNotificationFromMap(method string, params map[string]interface{})
 
 // RequestId is the base request id struct for all MCP requests.
 type RequestId interface{}
+
+// requestIDKey returns a canonical text for a JSON-RPC id, so that an integer id compares equal
+// whether it is held as the integer that was sent or as the float64 encoding/json decodes it
+// into (fmt's %v prints a float64 of 1000000 as "1e+06").
+func requestIDKey(id interface{}) string {
+	if f, ok := id.(float64); ok && f == math.Trunc(f) && math.Abs(f) < 1<<63 {
+		return strconv.FormatInt(int64(f), 10)
+	}
+	return fmt.Sprintf("%v", id)
+}
 
 // JSONRPCMessageType represents the type of a JSON-RPC message
 type JSONRPCMessageType string
